@@ -4,6 +4,7 @@ package c16
 import (
 	"bytes"
 	"fmt"
+	"os"
 	"regexp"
 	"strings"
 	"testing"
@@ -200,6 +201,123 @@ func hasTransitive(p *awkgen.TProg, in *awkgen.Inference) bool {
 	return false
 }
 
+// ---------------------------------------------------------------------------
+// "arrays passed to functions are shared by reference": every way of writing to
+// (or reading from) an array, applied to an array parameter 1-3 calls deep,
+// must leave the caller's array exactly as applying it directly does.
+
+type RefCase struct {
+	Form     int  `json:"form"`
+	Depth    int  `json:"depth"`     // how many functions the array is passed through
+	Local    bool `json:"local"`     // the array is a local of the calling function rather than a global
+	ArrFirst bool `json:"arr_first"` // position of the array among the parameters
+	Other    bool `json:"other"`     // a second, unrelated array exists (so that index 0 is not the only array)
+}
+
+var arrayOps = []string{
+	`X["new"] = 1`, `X[1]++`, `X[1] += 2`, `delete X["k"]`, `delete X`, `n = split("p q r", X)`, `sub(/k/, "K", X["k"])`, `gsub(/v/, "V", X["k"])`,
+	`getline X["new"]`, `getline X["new"] < F`, `X["new"]`, `r = ("z" in X)`, `for (q in X) delete X[q]`, `X[2] = X[1] X["k"]`, `n = split("a:b", X, ":")`,
+	`X[1] = length(X)`, `$0 = "f1 f2"; X["new"] = $2`, `getline X[1]; getline X[2] < F`, `X[X[1]] = X["k"]`, `while ((getline X[++cnt] < F) > 0) ;`,
+}
+
+func enumRef(thorough bool, yield func(RefCase) bool) {
+	for f := range arrayOps {
+		for d := 1; d <= 3; d++ {
+			for _, local := range []bool{false, true} {
+				for _, first := range []bool{true, false} {
+					for _, other := range []bool{false, true} {
+						if !yield(RefCase{Form: f, Depth: d, Local: local, ArrFirst: first, Other: other}) {
+							return
+						}
+					}
+				}
+			}
+		}
+	}
+}
+
+const refDump = `function dump(A,   i, k) { printf "len=%d", length(A); n_ = split("k 1 2 3 new x z", ks_, " "); for (i = 1; i <= n_; i++) { k = ks_[i]; if (k in A) printf " %s=<%s>", k, A[k] } printf "\n" }`
+
+func refProgram(c RefCase, via bool) string {
+	var sb strings.Builder
+	sb.WriteString(refDump + "\n")
+	op := arrayOps[c.Form]
+	arr := "G"
+	if c.Local {
+		arr = "loc"
+	}
+	apply := strings.ReplaceAll(op, "X", arr)
+	if via {
+		for d := 1; d <= c.Depth; d++ {
+			pname := fmt.Sprintf("a%d", d)
+			params := pname + ", s"
+			if !c.ArrFirst {
+				params = "s, " + pname
+			}
+			body := strings.ReplaceAll(op, "X", pname)
+			if d > 1 {
+				inner := fmt.Sprintf("a%d, s", d)
+				if !c.ArrFirst {
+					inner = fmt.Sprintf("s, a%d", d)
+				}
+				body = fmt.Sprintf("w%d(%s)", d-1, inner)
+			}
+			fmt.Fprintf(&sb, "function w%d(%s,   n, r, q) { %s }\n", d, params, body)
+		}
+		args := arr + ", 7"
+		if !c.ArrFirst {
+			args = "7, " + arr
+		}
+		apply = fmt.Sprintf("w%d(%s)", c.Depth, args)
+	}
+	other := ""
+	if c.Other {
+		other = `AA["o"] = "other"; ZZ["o"] = "other"; `
+	}
+	setup := fmt.Sprintf(`%s%s["k"] = "kv"; %s[1] = 5; `, other, arr, arr)
+	tail := ""
+	if c.Other {
+		tail = "; dump(AA); dump(ZZ); dump(ARGV)"
+	}
+	if c.Local {
+		fmt.Fprintf(&sb, "function outer(   loc, n, r, q) { %s%s; dump(loc)%s }\nBEGIN { outer() }\n", setup, apply, tail)
+	} else {
+		fmt.Fprintf(&sb, "BEGIN { %s%s; dump(G)%s }\n", setup, apply, tail)
+	}
+	return sb.String()
+}
+
+func runRef(x *h.Ctx, c RefCase) string {
+	dir := h.TempDir("c16r")
+	defer os.RemoveAll(dir)
+	side := dir + "/side"
+	os.WriteFile(side, []byte("file-line-1\nfile-line-2\n"), 0o644)
+	exec := func(src string) (string, string) {
+		prog, err := parser.ParseProgram([]byte(src), nil)
+		if err != nil {
+			return "", "parse: " + err.Error()
+		}
+		var out bytes.Buffer
+		_, err = interp.ExecProgram(prog, &interp.Config{Stdin: strings.NewReader("stdin-line-1\nstdin-line-2\n"), Output: &out, Error: &out, Argv0: "goawk", Args: []string{}, Environ: []string{}, Vars: []string{"F", side}, NoExec: true, NoFileWrites: true})
+		if err != nil {
+			return out.String(), "run: " + err.Error()
+		}
+		return out.String(), ""
+	}
+	direct, viaSrc := refProgram(c, false), refProgram(c, true)
+	o1, e1 := exec(direct)
+	o2, e2 := exec(viaSrc)
+	if e1 != "" {
+		return fmt.Sprintf("harness: the direct program fails: %s\n%s", e1, direct)
+	}
+	if e2 != "" || o1 != o2 {
+		return fmt.Sprintf("an operation on an array parameter does not act on the caller's array as the direct operation does\n--- direct:\n%s--- output:\n%s--- through %d function(s):\n%s--- output (%s):\n%s", direct, o1, c.Depth, viaSrc, e2, o2)
+	}
+	x.Nontrivial("")
+	return ""
+}
+
 func init() {
 	h.Prop("verdict_behaviour_invariance", 24000, 400000, genCase, run)
+	h.Enum("array_parameter_operations", enumRef, runRef)
 }
